@@ -257,7 +257,7 @@ def gen_ops(rng, sc, length, kinds):
             T = sorted(rng.sample(range(n), rng.randint(1, min(2, n))))
             ops.append(dict(op="cache", inst=inst, mode=mode, T=T, args=rng.choice([(1,), (2, 3), (5, 6)]),
                             restart=rng.choice(["same", "whole"]), omit_default=rng.random() < 0.5,
-                            slot=rng.choice([None, 0, 0, 1])))
+                            omit_required=rng.random() < 0.35, slot=rng.choice([None, 0, 0, 1])))
     return ops
 
 
@@ -501,6 +501,8 @@ def run_history(sc, ops):
                                     restart=op["restart"]))
                 # a defaulted argument that the caching run supplied is in the file: the restart may omit it
                 rargs = op["args"][:1] if (len(op["args"]) == 2 and op.get("omit_default")) else op["args"]
+                if op.get("omit_required") and str(n) in rec["file"] and (len(op["args"]) < 2 or str(n + 1) in rec["file"]):
+                    rargs = ()      # the REQUIRED argument is in the file too: the restart need not pass it again
                 rec2["op"]["restart_args"] = list(rargs)
                 rec2["out"] = attempt(lambda: d.executor(from_cache=path, **kw2)(*rargs))
                 rec2["entered"], rec2["dups"] = counters_delta(before2, tag, n)
